@@ -31,6 +31,7 @@ DocShapeWhy(r) ==
   LET req == Req(r)  a == DepAdjOf(r) IN
   IF ~r.doc.ok THEN "C06:run ended without a result document (fatal error)"
   ELSE IF Len(r.doc.results) # r.ncmd THEN "C05:result document does not list every command once"
+  ELSE IF "names_ok" \in DOMAIN r.doc /\ ~r.doc.names_ok THEN "C05:result document does not name the commands in the order they were given"
   ELSE LET badc(c) ==
              LET Gs == CmdGroups(r, c)
                  all == [ i \in DOMAIN Gs |-> GroupTargets(Gs[i]) ]
